@@ -306,3 +306,120 @@ Proof.
   intros H2l Hlen Hp Hw. apply Forall_forall.
   apply (WriterProofs.write_molfile_line_length line2 w H2l Hlen (WriterProofs.mo_atoms _ (written_ok s g w Hp Hw))).
 Qed.
+
+(* ------------------------------------------------------------------------------------ *)
+(* 5. non-vacuity and necessity of the radical hypothesis                                *)
+(* ------------------------------------------------------------------------------------ *)
+(* 13C-labelled, deuterated methanol with a carbene-like carbon: atoms 1-4 H, 5 C, 6 O *)
+Definition ex_s : text := t "CH4O/(1-5)(2-5)(3-5)(4-6)(5-6)/(4:mass=2)(5:mass=13,rad=2)".
+Definition ex_hdr : text := t "  TUCAN01010012600393D".
+
+(* the whole pipeline run by the executable model with the reference oracle *)
+Definition run_pipeline (hdr s : text) : option text :=
+  match ref_parse s with
+  | inr g => match to_writer_graph g with
+             | Some w => match V2000.read_molfile (write_molfile hdr w) with
+                         | inr g' => tucan RefCanon.ref_canon g'
+                         | inl _ => None
+                         end
+             | None => None
+             end
+  | inl _ => None
+  end.
+
+Example ex_s_canonical : Norm.norm RefCanon.ref_canon ex_s = Some ex_s.
+Proof. vm_compute. reflexivity. Qed.
+Example ex_s_pipeline : run_pipeline ex_hdr ex_s = Some ex_s.
+Proof. vm_compute. reflexivity. Qed.
+
+(* the text written, line by line (this is the output of graph_to_molfile on graph_from_tucan ex_s,
+   time stamp as in ex_hdr) *)
+Example ex_s_written :
+  option_map (fun w => splitlines (write_molfile ex_hdr w))
+             (match ref_parse ex_s with inr g => to_writer_graph g | inl _ => None end)
+  = Some (map t [""; "  TUCAN01010012600393D"; ""; "  0  0  0     0  0            999 V3000";
+                 "M  V30 BEGIN CTAB"; "M  V30 COUNTS 6 5 0 0 0"; "M  V30 BEGIN ATOM";
+                 "M  V30 1 H 0.000000 0.000000 0.000000 0";
+                 "M  V30 2 H 0.000000 0.000000 0.000000 0";
+                 "M  V30 3 H 0.000000 0.000000 0.000000 0";
+                 "M  V30 4 H 0.000000 0.000000 0.000000 0 MASS=2";
+                 "M  V30 5 C 0.000000 0.000000 0.000000 0 RAD=2 MASS=13";
+                 "M  V30 6 O 0.000000 0.000000 0.000000 0";
+                 "M  V30 END ATOM"; "M  V30 BEGIN BOND";
+                 "M  V30 1 1 1 5"; "M  V30 2 1 2 5"; "M  V30 3 1 3 5"; "M  V30 4 1 4 6"; "M  V30 5 1 5 6";
+                 "M  V30 END BOND"; "M  V30 END CTAB"; "M  END"]%string).
+Proof. vm_compute. reflexivity. Qed.
+
+(* the hypotheses of the theorems hold for it *)
+Definition rad_range_check {P B} (g : mol P B) : bool :=
+  forallb (fun x => match rad x with Some v => Z.leb v 3 | None => true end) (atoms g).
+Lemma rad_range_check_ok {P B} (g : mol P B) : rad_range_check g = true -> rad_in_format_range g.
+Proof.
+  intros H x Hx v E. unfold rad_range_check in H. rewrite forallb_forall in H. specialize (H x Hx).
+  rewrite E in H. apply Z.leb_le, H.
+Qed.
+
+Example ex_s_hypotheses : exists g w,
+  ref_parse ex_s = inr g /\ atoms g <> [] /\ rad_in_format_range g /\ to_writer_graph g = Some w /\
+  WriterProofs.nolb ex_hdr /\ length ex_hdr <= 79 /\ tucan RefCanon.ref_canon g = Some ex_s.
+Proof.
+  eexists. eexists. split; [vm_compute; reflexivity|].
+  split; [discriminate|].
+  split; [apply rad_range_check_ok; vm_compute; reflexivity|].
+  split; [vm_compute; reflexivity|].
+  split; [apply WriterProofs.nolb_check; vm_compute; reflexivity|].
+  split; [vm_compute; repeat constructor|].
+  vm_compute. reflexivity.
+Qed.
+
+(* the theorem applied (nothing run through the writer or the reader): for EVERY oracle satisfying
+   the contract and every header line, the pipeline on the canonical string of ex_s returns it *)
+Example ex_s_by_theorem canon line2 : H1 canon -> H2 canon -> WriterProofs.nolb line2 ->
+  exists c g w g',
+    Norm.norm canon ex_s = Some c /\
+    ref_parse c = inr g /\ to_writer_graph g = Some w /\
+    V2000.read_molfile (write_molfile line2 w) = ok g' /\ tucan canon g' = Some c.
+Proof.
+  intros HH1 HH2 H2l. destruct ex_s_hypotheses as (g0 & w0 & Hp & Hne & Hr & _).
+  destruct (Norm.norm_defined canon HH1 ex_s g0 Hp Hne) as (c & Hc).
+  destruct (norm_molfile_pipeline canon HH1 HH2 ex_s g0 c line2 H2l Hp Hr Hc) as (g & w & g' & H).
+  exists c, g, w, g'. split; [exact Hc | exact H].
+Qed.
+
+(* NECESSITY of rad_in_format_range.  rad=4 is accepted by the grammar and survives
+   canonicalization and serialization, so the string below is canonical; the writer does not print
+   RAD=4, and the pipeline returns the string of the molecule without the radical. *)
+Definition ex_rad4 : text := t "CH4O/(1-5)(2-5)(3-5)(4-6)(5-6)/(4:mass=2)(5:mass=13,rad=4)".
+Example ex_rad4_canonical : Norm.norm RefCanon.ref_canon ex_rad4 = Some ex_rad4.
+Proof. vm_compute. reflexivity. Qed.
+Example ex_rad_lost :
+  run_pipeline ex_hdr ex_rad4 = Some (t "CH4O/(1-5)(2-5)(3-5)(4-6)(5-6)/(4:mass=2)(5:mass=13)")
+  /\ run_pipeline ex_hdr ex_rad4 <> Some ex_rad4.
+Proof. split; [vm_compute; reflexivity|]. vm_compute. discriminate. Qed.
+Example ex_rad4_out_of_range : forall g, ref_parse ex_rad4 = inr g -> ~ rad_in_format_range g.
+Proof.
+  intros g Hp Hr. vm_compute in Hp. injection Hp as <-.
+  refine (_ (Hr _ (or_intror (or_intror (or_intror (or_intror (or_introl eq_refl))))) 4%Z eq_refl)). lia.
+Qed.
+(* the only thing lost is the radical: the atom line of the carbon *)
+Example ex_rad4_line :
+  option_map (fun w => nth 11 (splitlines (write_molfile ex_hdr w)) [])
+             (match ref_parse ex_rad4 with inr g => to_writer_graph g | inl _ => None end)
+  = Some (t "M  V30 5 C 0.000000 0.000000 0.000000 0 MASS=13").
+Proof. vm_compute. reflexivity. Qed.
+
+Print Assumptions writer_graph_ok.
+Print Assumptions written_ok.
+Print Assumptions read_back_SameMol.
+Print Assumptions read_written.
+Print Assumptions tucan_molfile_roundtrip.
+Print Assumptions tucan_molfile_roundtrip_defined.
+Print Assumptions tucan_molfile_roundtrip_canonical.
+Print Assumptions tucan_molfile_pipeline.
+Print Assumptions norm_molfile_pipeline.
+Print Assumptions written_line_length.
+Print Assumptions ex_s_pipeline.
+Print Assumptions ex_s_hypotheses.
+Print Assumptions ex_s_by_theorem.
+Print Assumptions ex_rad_lost.
+Print Assumptions ex_rad4_out_of_range.
